@@ -22,7 +22,7 @@ READY = False
 MANIFEST = dict(
     technique='Lean 4 theorems over a bit-exact integer model of the binary64 operations (correctly rounded n/1000, x*1000, round-half-even) with a proved half-ulp error bound, and over transcribed string level models of the decimal / integer / boolean / enum / duration converters; correspondence with the real converters (floats via float.hex()), dense millisecond window exhaustively',
     text='Properties/C18.lean proves: to_xml(to_py(n)) = n for EVERY millisecond count n < 2^53/1000 (no sampling: error analysis of the two roundings proved about the executable rnRat/rnMul), |to_py(to_xml(x)) - x| < 1 ms for every float 0 <= x <= 2^41 s, value preservation and absence of exponent notation for every Decimal with <= 18 digits and exponent in [-18, 18] (both directions, negative and zero included), the duration round trip for every integer microsecond count, and rejection of every string outside the lexical space of xsd:integer / xsd:decimal (after white space collapse) and of every non-literal for enums. For xsd:boolean the statement is refuted (to_py never rejects) - known finding.',
-    note='Model describes the code after fix commits 02af939, 4314acb, f03f008 (+ isoduration re.ASCII). Trusted: CPython int/int true division, float*float, float(str), round(float) being the IEEE-754 correctly rounded operations (compared bit-exactly on every run, dense window 0..2e7 ms exhaustively in the thorough tier); decimal.Decimal constructor / format(d, "f") (transcribed, under correspondence); C implementation of datetime.timedelta(seconds=float) (transcribed from _datetimemodule.c accum/delta_new, under correspondence). Not modelled: DecimalConverter with USE_DECIMAL_TYPE=False and float py values (_float_to_xml), XsdDateInformation (oracle on the implementation only), subnormal / overflowing floats.',
+    note='Model describes the code after fix commits 02af939, 4314acb, f03f008, 95e2f64. The float steps of parse_duration (float(str), modf, frac*1e6, round-half-even) are proved exact on the binary64 model for what duration_string writes. Trusted: CPython int/int true division, float*float, float(str), round(float) being the IEEE-754 correctly rounded operations (compared bit-exactly on every run, dense window 0..2e7 ms exhaustively in the thorough tier); decimal.Decimal constructor / format(d, "f") (transcribed, under correspondence); C implementation of datetime.timedelta(seconds=float) (transcribed from _datetimemodule.c accum/delta_new, under correspondence). Not modelled: DecimalConverter with USE_DECIMAL_TYPE=False and float py values (_float_to_xml), XsdDateInformation (oracle on the implementation only), subnormal / overflowing floats.',
     ref='5 C18')
 DRIVERS = ['drv_c18']
 RULE = ('one case = one converter call (class, direction, input); distinct by input; non-trivial = the input is not a fixed '
@@ -180,8 +180,8 @@ def _ts_window_impl(args):
 def run_timestamps(ctx, dc):
     T = dc.TimestampConverter
     b = Batch(ctx)
-    # -- dense window, line by line (quick) / by checksum over [0, 2e7) (thorough)
-    dense = ctx.n(200_000, 200_000)
+    # -- dense window: line by line over [0, 2e4) (diagnosable), by checksum over [0, 2e5) (quick) / [0, 2e7) (thorough)
+    dense = 20_000
     for n in range(dense):
         s = str(n)
         r = call(T.to_py, s)
@@ -241,13 +241,18 @@ def run_timestamps(ctx, dc):
         ctx.case(('ts-s', s))
     b.flush()
     if ctx.tier == 'thorough':
-        run_ts_dense_thorough(ctx)
+        run_ts_dense(ctx, 20_000_000, 500_000, 8)
+    else:
+        run_ts_dense(ctx, 200_000, 50_000, 1)
 
 
-def run_ts_dense_thorough(ctx, hi=20_000_000, step=500_000):
+def run_ts_dense(ctx, hi, step, procs):
     chunks = [(a, min(a + step, hi)) for a in range(0, hi, step)]
-    with multiprocessing.Pool(8) as pool:
-        impl = pool.map(_ts_window_impl, chunks)
+    if procs > 1:
+        with multiprocessing.Pool(procs) as pool:
+            impl = pool.map(_ts_window_impl, chunks)
+    else:
+        impl = [_ts_window_impl(c) for c in chunks]
     out = ctx.driver('drv_c18', [f'tswin {a} {b}' for a, b in chunks]) if ctx.driver_ok else None
     for i, (a, b, bad, nbad, cs) in enumerate(impl):
         for n in bad:
@@ -255,7 +260,7 @@ def run_ts_dense_thorough(ctx, hi=20_000_000, step=500_000):
         if out is not None and out[i] != f'ok {nbad} {cs}':
             ctx.disagree('dense timestamp window (checksum over mantissa, exponent, to_xml)', {'window': [a, b]}, out[i], f'ok {nbad} {cs}')
     ctx.evaluations += hi
-    ctx.count('ts:dense-window-thorough', hi)
+    ctx.count('ts:dense-window-checksum', hi)
     ctx.notes['dense_window'] = f'0 .. {hi} ms exhaustively through model and implementation (checksum per {step})'
 
 
@@ -316,7 +321,7 @@ def dec_tuple(d: Decimal):
 def run_lexical(ctx, dc):
     rng = ctx.subrng('lex')
     b = Batch(ctx)
-    forms = list(SLOPPY)
+    forms = ['TRUE'] + list(SLOPPY)      # 'TRUE' is the witness of Properties/C18.lean lexical_reject_boolean_refuted
     for _ in range(ctx.n(4000, 40000)):
         base = rng.choice([str(rng.randrange(10 ** rng.randrange(1, 22))), '-%d' % rng.randrange(1000),
                            '%d.%d' % (rng.randrange(1000), rng.randrange(1000)), '.%d' % rng.randrange(100),
@@ -463,6 +468,18 @@ def td_us(x: float) -> int:
     return tdt.days * 86_400_000_000 + tdt.seconds * 1_000_000 + tdt.microseconds
 
 
+RE_DUR = re.compile(r'PT(?=.)([0-9]+H)?([0-9]+M)?([0-9]+(\.[0-9]+)?S)?\Z')
+
+
+def duration_lexical_oracle(ctx, s, res):
+    t = s.strip(XML_WS)
+    inside = bool(RE_DUR.match(t))
+    if not inside and res[0] == 'ok':
+        ctx.fail('lexical:duration-coerced', f'parse_duration({s!r}) returned {res[1]!r} instead of raising ValueError', {'kind': 'durs', 's': s})
+    if inside and s == t and res[0] == 'err' and res[1] != 'overflow':
+        ctx.fail('lexical:duration-valid-rejected', f'parse_duration({s!r}) raised {res[1]}', {'kind': 'durs', 's': s})
+
+
 def run_durations(ctx, dc, iso):
     rng = ctx.subrng('dur')
     b = Batch(ctx)
@@ -536,6 +553,7 @@ def run_durations(ctx, dc, iso):
     for s in strs:
         r = call(C.to_py, s)
         b.add('durpy ' + hx(s), 'ok ' + fp_str(r[1]) if r[0] == 'ok' else 'err ' + r[1], 'parse_duration', {'s': s})
+        duration_lexical_oracle(ctx, s, r)
         ctx.count('dur:to_py:' + (r[0] if r[0] == 'ok' else r[1]))
         ctx.case(('durs', s))
     b.flush()
@@ -588,7 +606,7 @@ def run(ctx):
     run_decimals(ctx, dc)
     run_durations(ctx, dc, iso)
     run_datetime(ctx, iso)
-    ctx.notes['explanation'] = ('dense window 0..2e5 ms line by line (thorough: 0..2e7 by checksum), random n < 2^53/1000, random floats <= 2^41 s; '
+    ctx.notes['explanation'] = ('dense window 0..2e4 ms line by line, 0..2e5 by checksum (thorough: 0..2e7), random n < 2^53/1000, random floats <= 2^41 s; '
                                 'decimals: every sign x digit count 1..22 x exponent -25..25 class; sloppy lexical forms for every converter; '
                                 'durations from floats incl. ties of the microsecond rounding and from strings')
 
@@ -651,6 +669,8 @@ def _replay_case(ctx, dc, iso, case, report=False):
         p = dc.DurationConverter.to_py(s)
         if p != td_us(x) / 10 ** 6:
             ctx.fail('duration:roundtrip', f'{x!r} -> {s!r} -> {p!r}', case)
+    elif k == 'durs':
+        duration_lexical_oracle(ctx, case['s'], call(dc.DurationConverter.to_py, case['s']))
     elif k == 'enum':
         cls = dict(_enum_classes())[case['cls']]
         r = call(dc.EnumConverter(cls).to_py, case['s'])
